@@ -90,10 +90,14 @@ TEXT = {
           "contains, enumeration length; for the heap mirror, heapify_up / heapify_down only permute the array (siftUp_perm, "
           "siftDown_perm), so push adds exactly its argument and pop removes exactly one occurrence of the element it returns "
           "(C20_heap_push_perm, C20_heap_pop_perm), and remove takes out copies of its argument only, as many as it reports "
-          "(C20_heap_remove_perm): the array is always the multiset pushed minus popped or removed, for every history. The heap-"
-          "order invariant (the first slot is a maximum) and the probe-chain refinement of the table are not proved (correspondence only).",
+          "(C20_heap_remove_perm): the array is always the multiset pushed minus popped or removed, for every history. The heap order "
+          "is an invariant of every history: heapify_up restores it from 'broken between one position and its parent' (siftUp_ok), "
+          "heapify_down from 'broken between one position and its children' (siftDown_ok), so push, pop and remove keep it "
+          "(C20_heap_push_ok, C20_heap_pop_ok, C20_heap_remove_ok), every heap reachable from the empty one is in heap order "
+          "(C20_heap_reachable_ok), and the element returned by peek / pop is at least every element of the array (C20_heap_peek_max). "
+          "The probe-chain refinement of the hash table is not proved (correspondence only).",
   "design_ref": "5.20",
-  "note": "proof covers the reference semantics and basic mirror lemmas; the refinement mirror -> reference is checked per history (20k histories per quick run with forced collisions, wrap-around, growth), not proved; elements abstracted to (identity, reported hash)",
+  "note": "proof covers the reference semantics, the heap mirror (multiset and heap order for every history) and basic lemmas of the table mirror; the refinement mirror -> reference is checked per history (20k histories per quick run with forced collisions, wrap-around, growth), not proved; elements abstracted to (identity, reported hash)",
   "technique": "Lean 4 proved reference semantics + slot-exact mirror model + history-based differential correspondence",
  },
  "C01": {
